@@ -512,7 +512,8 @@ def gen_fault_history(rnd, nops, geo, sess):
             do("%s %d %d %d" % (op, r, r2, kidx(r2) if rnd.random() < 0.5 else rnd.choice([0, 0, 1, 2, 4])))
         elif op in ("set", "add") and usable:
             r = prefer(usable, "AN") if op == "add" else rnd.choice(usable)
-            k = rnd.choice(["null", "bool", "i", "i", "u", "f", "d", "d", "sl", "sc", "sc", "sc", "sv", "raw", "ref", "doc"])
+            # copies of whole values (preferably containers) are frequent: a copy makes many allocations, so failures land inside it
+            k = rnd.choice(["null", "bool", "i", "i", "u", "f", "d", "d", "sl", "sc", "sc", "sc", "sv", "raw", "ref", "ref", "ref", "ref", "doc", "doc"])
             a = "-"
             if k == "bool":
                 a = rnd.choice("01")
@@ -536,7 +537,7 @@ def gen_fault_history(rnd, nops, geo, sess):
                 if not c or docof.get(r) is None:
                     k, a = "null", "-"
                 else:
-                    a = str(rnd.choice(c))
+                    a = str(prefer(c, "AO"))
             elif k == "doc":
                 c = [d for d in range(3) if d != docof.get(r)]
                 if docof.get(r) is None:
